@@ -115,7 +115,9 @@ func main() {
 						lowerWL, _, _, _ = bounds(st.frames, ends, cut-1)
 					}
 					headerCutNoMsg := strings.HasPrefix(where, "inside-header") && len(lower) == len(upper) && !openAt(st.frames, ends, cut)
-					for _, kind := range []string{"EOF", "error", "error-with-last-bytes", "EOF-with-last-bytes"} {
+					// "/bufio": the same source behind a *bufio.Reader (16-byte buffer), the usual way a
+					// connection reaches the library; it offers Discard, Peek, WriteTo besides Read
+					for _, kind := range []string{"EOF", "error", "error-with-last-bytes", "EOF-with-last-bytes", "EOF/bufio", "error/bufio"} {
 						for _, d := range ds {
 							cut, kind, d := cut, kind, d
 							t.Do(func() string {
@@ -123,12 +125,16 @@ func main() {
 							}, func() *explore.Fail {
 								src := env.NewSrc(data)
 								src.Cut = cut
-								if kind == "error" || kind == "error-with-last-bytes" {
+								if strings.HasPrefix(kind, "error") {
 									src.EndErr = env.ErrInjected
 								}
 								src.WithLast = strings.HasSuffix(kind, "-with-last-bytes")
 								var res drivers.Result
-								d.Run(src, st.side, drivers.Cfg{}, &res)
+								if strings.HasSuffix(kind, "/bufio") {
+									d.Run(bufio.NewReaderSize(src, 16), st.side, drivers.Cfg{}, &res)
+								} else {
+									d.Run(src, st.side, drivers.Cfg{}, &res)
+								}
 								cls := d.Name + ":" + where + ":" + kind
 								var got []drivers.Event
 								for _, e := range res.Events {
@@ -158,7 +164,7 @@ func main() {
 								if res.Err == nil {
 									return explore.Failf("no-error:"+cls, "")
 								}
-								eofKind := kind == "EOF" || kind == "EOF-with-last-bytes"
+								eofKind := strings.HasPrefix(kind, "EOF")
 								if res.Err == io.EOF && !(clean && eofKind) {
 									if headerCutNoMsg && eofKind {
 										// A stream that ends inside a frame header while no message is open
